@@ -157,6 +157,26 @@ Theorem C16_trace_empty_beyond_refuted : exists s off,
 Proof. exists [2; 3], (-3). repeat split; try (repeat constructor; lia). Qed.
 Print Assumptions C16_trace_empty_beyond_refuted.
 
+(* operand shapes NumPy rejects: view::matmul / array::matmul unwrap the empty shape_matmul result (trap, not Nothing) *)
+Theorem C16_matmul_rejected_shapes_trap_refuted : exists sa sb,
+  pos sa /\ pos sb /\ np_matmul_shape sa sb = None /\ z_matmul_v1 sa sb (iota sa) (iota sb) = Trap.
+Proof. exists [1; 1], [2; 1]. repeat split; try (repeat constructor; lia). Qed.
+Print Assumptions C16_matmul_rejected_shapes_trap_refuted.
+
+(* contraction length 1 against k: NumPy rejects; inner / vecdot / matmulv2 / tensordot stretch the unit extent and return a view
+   (view::dot refuses: its reshape target carries the other operand's contraction length) *)
+Theorem C16_unit_contraction_accepted_refuted : exists sa sb,
+  pos sa /\ pos sb
+  /\ np_inner_shape sa sb = None /\ (exists m, z_inner sa sb (iota sa) (iota sb) = Ok m)
+  /\ np_vecdot_shape sa sb = None /\ (exists m, z_vecdot sa sb (iota sa) (iota sb) = Ok m)
+  /\ np_matmul_shape sa [3; 2] = None /\ (exists m, z_matmul_v2 sa [3; 2] (iota sa) (iota [3; 2]) = Ok m)
+  /\ np_tensordot_shape sa [3; 2] [1%nat] [0%nat] = None /\ (exists m, z_tensordot_int sa [3; 2] (iota sa) (iota [3; 2]) 1 = Ok m)
+  /\ np_dot_shape sa [3; 2] = None /\ z_dot sa [3; 2] (iota sa) (iota [3; 2]) = Nothing.
+Proof.
+  exists [2; 1], [2; 3]. repeat split; try (repeat constructor; lia); try (eexists; reflexivity).
+Qed.
+Print Assumptions C16_unit_contraction_accepted_refuted.
+
 (* ---------- non-vacuity ---------- *)
 Example C16_nonvacuous_matmul :
   shape_matmul [2; 1; 2; 3] [3; 3; 2] = Some [2; 3; 2; 2] /\ inb [1; 2; 1; 0] [2; 3; 2; 2]
